@@ -29,7 +29,7 @@
    signed non-zeroth gram this needs its zeroth gram earlier), and no copy of a
    memo's grams arrives after the pass that delivered it. *)
 From Hio Require Import Base.Prelude Model.B64 Model.MemoGram Model.MemoRx
-  Proofs.MemoRxProofs Proofs.MemoFuseProofs Proofs.MemoCodecProofs Proofs.MemoCodecB2Proofs Proofs.MemoRendProofs Proofs.MemoComposeProofs.
+  Proofs.MemoRxProofs Proofs.MemoFuseProofs Proofs.MemoCodecProofs Proofs.MemoCodecB2Proofs Proofs.MemoRendProofs Proofs.MemoComposeProofs Proofs.MemoSignerProofs.
 Local Open Scope N_scope.
 
 (* ---- storage: any order / duplication / interleaving ---- *)
@@ -281,6 +281,35 @@ Print Assumptions C20_receiver_config_irrelevant.
 Example C20_receiver_config_example :
   inbox (fst (run toy_verify false init [RxSet (SetSize 1); Dgram ug0 1; RxSet (SetCurt true); SvcAllRx])) =
   [([104;105], 1, None)].
+Proof. vm_compute. reflexivity. Qed.
+
+(* ---- the signer id of a delivered memo ---- *)
+(* For ANY receiver (authic or not), any datagrams and any service pattern: a
+   memo is delivered with signer id Some v only if some received datagram
+   carried a signed part whose signature verified for v (the zeroth gram of a
+   signed memo).  In particular a memo of unsigned grams is delivered with
+   signer id None whatever the arrival order; the receiver's own vid is not an
+   input of the receive side at all.  (With C20_reassembly_partial: the id is
+   exactly the sender's for a signed memo, None for an unsigned one.) *)
+Theorem C20_signer_is_verified : forall verify authic ops text src v,
+  let s := fst (run verify authic init ops) in
+  In (text, src, Some v) (rxms s ++ inbox s) ->
+  exists b d, In d (dgrams ops) /\ signed_ok verify v b d.
+Proof.
+  intros verify authic ops text src v s Hin.
+  assert (I0 : sinv verify (dgrams ops) init) by (repeat split; try constructor; intros ? ? []).
+  pose proof (run_sinv verify authic (dgrams ops) ops init (incl_refl _) I0) as (_ & _ & Im & Ii).
+  fold s in Im, Ii. apply in_app_or in Hin. destruct Hin as [Hin|Hin].
+  - eapply Forall_forall in Im; eauto. apply (Im v). reflexivity.
+  - eapply Forall_forall in Ii; eauto. apply (Ii v). reflexivity.
+Qed.
+Print Assumptions C20_signer_is_verified.
+
+Example C20_signer_example :
+  (* unsigned two-gram memo, non-zeroth gram first: signer id None *)
+  let g0 := [98;65;65;65; 65;65;65;67] ++ ex_mid ++ [104] in
+  let g1 := [98;65;65;66; 65;65;65;66] ++ ex_mid ++ [105] in
+  inbox (fst (run toy_verify false init [Dgram g1 1; Dgram g0 1; SvcAllRx])) = [([104;105], 1, None)].
 Proof. vm_compute. reflexivity. Qed.
 
 (* D23a: both grams of a signed memo arrive, the non-zeroth one first: it is
